@@ -218,6 +218,7 @@ class XPowGate(eigen_gate.EigenGate):
         result = super().controlled(num_controls, control_values, control_qid_shape)
         if (
             self._global_shift == 0
+            and self._dimension == 2
             and isinstance(result, controlled_gate.ControlledGate)
             and isinstance(result.control_values, cv.ProductOfSums)
             and result.control_values.is_trivial
@@ -729,6 +730,7 @@ class ZPowGate(eigen_gate.EigenGate):
         result = super().controlled(num_controls, control_values, control_qid_shape)
         if (
             self._global_shift == 0
+            and self._dimension == 2
             and isinstance(result, controlled_gate.ControlledGate)
             and isinstance(result.control_values, cv.ProductOfSums)
             and result.control_values.is_trivial
